@@ -168,8 +168,18 @@ class C18(Property):
                     del b[rng.randrange(len(b))]
             elif kind == 'ontology':
                 ont_eq = False
-            yield {'et': et, 'a': a, 'b': b, 'ont_eq': ont_eq, 'kind': kind,
-                   'repr': rng.choice(['plain', 'plain', 'element', 'parsed'])}
+            case = {'et': et, 'a': a, 'b': b, 'ont_eq': ont_eq, 'kind': kind,
+                    'repr': rng.choice(['plain', 'plain', 'element', 'parsed'])}
+            if i % 4 == 0 and ont_eq:
+                # the collection object is reused: compared, changed in place (same length), compared again
+                a2 = json.loads(json.dumps(a))
+                j = rng.randrange(len(a2))
+                if rng.random() < 0.5:
+                    a2[j] = c04.gen_group(rng, et, 1)[0]
+                else:
+                    a2[j]['parents'] = ['%040x' % rng.randint(10, 20)]
+                case['a2'] = a2
+            yield case
 
     def observe(self, case):
         import edxml
@@ -188,16 +198,33 @@ class C18(Property):
                 return {'err': 'EDXMLMergeConflictError'}
             except Exception as ex:
                 return {'err': 'foreign:' + type(ex).__name__}
-        return {'ab': run(a, b), 'ba': run(b, a), 'aa': run(a, a)}
+        res = {'ab': run(a, b), 'ba': run(b, a), 'aa': run(a, a)}
+        if case.get('a2') is not None:
+            try:
+                a.resolve_collisions()
+            except Exception:
+                pass
+            for j, e in enumerate(case['a2']):
+                if e != case['a'][j]:
+                    a[j] = gen.build_event(e, case['repr'])
+            res['a2b'] = run(a, b)
+            res['ba2'] = run(b, a)
+        return res
 
     def requests(self, case):
         base = {'op': 'equiv', 'specs': c04.specs_of(case['et']), 'vp': case['et']['vp']}
-        return [dict(base, a=case['a'], b=case['b'], ontEq=case['ont_eq']),
+        reqs = [dict(base, a=case['a'], b=case['b'], ontEq=case['ont_eq']),
                 dict(base, a=case['b'], b=case['a'], ontEq=case['ont_eq']),
                 dict(base, a=case['a'], b=case['a'], ontEq=True)]
+        if case.get('a2') is not None:
+            reqs += [dict(base, a=case['a2'], b=case['b'], ontEq=True), dict(base, a=case['b'], b=case['a2'], ontEq=True)]
+        return reqs
 
     def predict(self, case, replies):
-        return {'ab': replies[0], 'ba': replies[1], 'aa': replies[2]}
+        res = {'ab': replies[0], 'ba': replies[1], 'aa': replies[2]}
+        if case.get('a2') is not None:
+            res['a2b'], res['ba2'] = replies[3], replies[4]
+        return res
 
     def oracle(self, case, obs):
         et = case['et']
@@ -217,6 +244,18 @@ class C18(Property):
             if r['ok'] != want:
                 return 'is_equivalent_of (%s, mutation %s) is %s but the logical events are %s' % (
                     k, case['kind'], r['ok'], 'the same' if want else 'different')
+        if case.get('a2') is not None:
+            try:
+                want2 = truth(et, case['a2'], case['b'], True)
+                for k in ('a2b', 'ba2'):
+                    r = obs[k]
+                    if 'err' in r:
+                        return 'is_equivalent_of (%s, after changing the collection in place) raised %s' % (k, r['err'])
+                    if r['ok'] != want2:
+                        return ('after replacing an event of the collection in place, is_equivalent_of (%s) is %s but the '
+                                'logical events are %s' % (k, r['ok'], 'the same' if want2 else 'different'))
+            except Conflict:
+                pass
         if case['kind'] in ('same', 'perm', 'resolved', 'dup') and not conflict and not want:
             return 'reference oracle inconsistent'  # generator guarantees equivalence for these kinds
         try:
